@@ -22,15 +22,33 @@ def run (op : String) (args impl : List String) : Outcome :=
     match impl with
     | ["reject"] =>
       { model := "reject", same := some true,
-        spec := if intent != "_" then specFail "[C17] a bind string in a documented form is rejected" else specOk, tags := ["keymap", "reject"] }
+        spec := if intent != "_" ∧ intent != "!" then specFail "[C17] a bind string in a documented form is rejected" else specOk,
+        tags := ["keymap", "reject"] ++ (if intent == "!" then ["nt", "put-nonprintable"] else []) }
     | ["ok", parsed, expected] =>
       let m := Fzf.Bind.mask Generated.argActions str
       { model := s!"ok {parsed} {expected}", same := some true,
-        spec := if intent == "_" then specOk
+        spec := if intent == "!" then specFail "[C17] `put` without argument is accepted for a key that is not a printable character"
+          else if intent == "_" then specOk
           else if parsed != expected then specFail s!"[C17] keys received {parsed} but the bind string lists {expected}"
           else if m.length != str.length then specFail "[C17] masking changed the length" else specOk,
         tags := ["keymap"] ++ (if intent != "_" then ["nt", "structured"] else ["raw"]) }
     | _ => { model := "?", spec := specFail "[C17] bind parsing crashed" }
+  | "override", [env, _g, f1, f2] =>
+    -- "later occurrences override earlier ones; the command line takes precedence over the environment":
+    -- parsing  prefix ++ first ++ second  must yield the configuration of  prefix ++ second
+    match impl with
+    | [s12, s2, sf1, sf2, eq, diff, crash] =>
+      let spec :=
+        if s12 == "crash" ∨ s2 == "crash" then specFail s!"[C17] option parsing crashed: {crash}"
+        else if s12 == "ok" ∧ s2 == "ok" ∧ eq != "1" then
+          specFail s!"[C17] an earlier occurrence of an option shows through a later one ({if env == "1" then "environment then command line" else "same argument vector"}): {diff}"
+        else if sf1 == "ok" ∧ sf2 == "ok" ∧ s2 == "ok" ∧ s12 != "ok" then
+          specFail "[C17] two individually valid occurrences of an option are rejected together"
+        else specOk
+      { model := " ".intercalate impl, same := some true, spec,
+        tags := ["override"] ++ (if env == "1" then ["env"] else []) ++ (if s12 == "ok" ∧ f1 != f2 then ["nt"] else []) ++
+          (if s2 != "ok" then ["reject"] else []) }
+    | _ => { model := "?", spec := specFail "[C17] option parsing crashed" }
   | "opts", [env, argv] =>
     let toStrs (x : String) : Option (List String) :=
       let bs := parseStrList x
